@@ -583,7 +583,7 @@ func init() {
 		ID:    "C10",
 		Level: "exploration",
 		Rule: "sweep of (kind, ref, version): refs 0,1,2 and 2^j-1,2^j,2^j+1 for j=1..40 (<2^40) plus PRNG refs, versions at every byte/sign boundary plus PRNG versions, all seven kinds; " +
-			"order decided for all pairs by tuple-sorting and checking strict increase, plus explicit pairs; Sort helpers against an independent tuple sort; malformed strings from a fixed table and a mutation grammar. " +
+			"order decided for all pairs by tuple-sorting and checking strict increase, plus explicit pairs; Sort helpers against an independent tuple sort; malformed strings from a fixed table and a mutation grammar (separators, letters, and 28 kinds of non-ASCII-digit characters substituted into or inserted around the numbers: digits of other scripts, other numeric runes, white space of every width, separators, exponents, NUL, broken UTF-8). " +
 			"A signature is (id family, kind, bit length of ref, version byte class) or (sort size class) or (malformed class); distinct_nontrivial counts distinct signatures.",
 		Assumptions: []string{
 			"changeset, note, user and bounds object ids carry no version (their public constructors take none); version is compared as 0 for them, and bounds has the single ref 0",
